@@ -7,8 +7,8 @@ CB_PATH = (('f', 'class'), ('v', 'Convertible', 'status'), ('v', 'Ready', 'conve
 
 def l_uns(dom, p):
     """L-uns: for unsigned x, not (0 < x) implies x == 0"""
-    for f, _, _ in p.facts:
-        if f[0] == 'val' and f[2] is False and f[1][0] == 'lt' and f[1][1] == I(0): dom.add_equality(f[1][2], I(0))
+    for x, sg in p.signs():
+        if sg == 'zero' and isinstance(x, tuple) and numericish(x): dom.add_equality(x, I(0))
 
 def bid_dom(p, base):
     bs = BidSpec(base)
